@@ -56,7 +56,7 @@ CLAIMED = {
              "of valid frames and EVERY partition of their byte stream into segments the receive path delivers exactly those messages in order and ends empty "
              "and un-parked (C04_reassembly_segmentation_independent), as a corollary of: incremental feeding equals draining the concatenated stream "
              "(C04_incremental_equals_whole: commutation lemma drain(a ++ s), fuel irrelevance, stability). The model is the sequential behaviour of the "
-             "receiver thread (append, trigger, peek length, wait for the frame, pop, decode, queue); it is tied to the real HsmsProtocol running its own threads. HsmsHeader.encode / decode are translated statement by statement from the source on every run - every self.x followed through its property and the __init__ chain to the constructor argument (Gen/PyHsmsHdr.v) - and proved equal to the model's header functions for every header and byte string (C04_header_code_is_model).",
+             "receiver thread (append, trigger, peek length, wait for the frame, pop, decode, queue); it is tied to the real HsmsProtocol running its own threads. HsmsHeader.encode / decode are translated statement by statement from the source on every run - every self.x followed through its property and the __init__ chain to the constructor argument (Gen/PyHsmsHdr.v) - and proved equal to the model's header functions for every header and byte string (C04_header_code_is_model). The framing loop HsmsProtocol._process_received_data is translated statement by statement on every run (harness/gen_rxloop.py -> Gen/RxLoop.v) and proved equal to the model's drain for every buffer (C04_receive_loop_code_is_model).",
         note=NOTE_COMMON + " Thread interleavings of the TCP thread with the receiver thread are not quantified by the theorem (the rig observes quiescent states only); frames that fail to decode are outside the statement.",
         technique="Rocq proof (stream/segment commutation lemma + induction over segments and frames) + regenerated constants + in-Coq differential correspondence against the threaded receiver",
         design="5/C04",
@@ -138,7 +138,7 @@ CLAIMED = {
              "the link is lost is discarded (C06_stop_discards_queued_refuted, known finding C06-queued-at-link-loss). "
              "The implementation is searched for failing schedules (every single preemption point at bytecode granularity), driven with concurrent requesters, bursts, reconnects "
              "(also in the middle of a message), a block forced to arrive exactly at the dispatcher's empty check, data messages carrying the system bytes of an unanswered linktest / of a request that timed out, "
-             "primaries of the peer that carry the system bytes of outstanding requests, and a handler that calls disable(), enable() and keeps running.",
+             "primaries of the peer that carry the system bytes of outstanding requests, and a handler that calls disable(), enable() and keeps running. The hand-over decision Protocol._deliver_message is regenerated on every run (harness/gen_handover.py -> Gen/HandOver.v); over it, for every schedule of the receiver thread, the dispatcher thread and a requester that may give up at any moment, only the dispatcher thread hands messages to the application, in arrival order, and every arrival is handed over exactly once (C06_only_the_dispatcher_hands_over, C06_handed_over_exactly_once; the decision before D78 refuted: C06_before_D78_refuted).",
         note=NOTE_COMMON + " Partial on 'interleavings': a locked body is ONE atomic step of the model (threading.Lock's mutual exclusion and the atomicity of a single attribute "
              "load/store under the GIL are trusted); 'one at a time' within one connection rests on there being one dispatcher thread per generation (observed: thread count, "
              "overlap of callbacks), across connections on the generations model (an abstraction written by hand, tied by two translator flags and the forced scenario); timers are outside.",
@@ -181,7 +181,7 @@ CLAIMED = {
              "(C09_send_queue_drained; the pre-D32 shape strands: C09_send_queue_return_strands). Tied to the code by cutting streams at every offset on the in-memory rig and over "
              "real loopback sockets, each library call under a deadline so that a hang is a violation; plus directed schedules that the load tests turned up (D35-D38): disable() "
              "while a peer connects / while the active side's attempt succeeds / racing with the peer's close, a slow application handler for 'disconnected' while the peer is back "
-             "at once, an active endpoint reconnecting with its Select.req open, application threads with failing sends while the peer closes.",
+             "at once, an active endpoint reconnecting with its Select.req open, application threads with failing sends while the peer closes. The framing loop HsmsProtocol._process_received_data is translated statement by statement on every run (Gen/RxLoop.v) and proved equal to the model's drain for every buffer (C09_receive_loop_code_is_model).",
         note=NOTE_COMMON + " Partial: that the disconnect handling and disable() RETURN is runtime behaviour no Gallina model exhibits - it is observed (deadlines, live threads, send queue), "
              "not proven; the theorems cover the state the endpoint is left in and the send queue. Forced interleavings wrap a thread object's is_alive() or one attribute read; "
              "everything else in those rounds is the real connection code on loopback TCP.",
